@@ -255,30 +255,30 @@ var corpus = []string{
 	"r4rk1/1pp1qppp/p1np1n2/2b1p1B1/2B1P1b1/P1NP1N2/1PP1QPPP/R4RK1 w - - 0 10",
 	"r3k2r/8/8/8/8/8/8/R3K2R w KQkq - 0 1",
 	"r3k2r/8/8/8/8/8/8/R3K2R b KQkq - 0 1",
-	"r3k2r/8/8/4q3/8/8/8/R3K2R w KQkq - 0 1",         // e-file check: no castling
-	"r3k2r/8/8/8/5b2/8/8/R3K2R w KQkq - 0 1",         // bishop eyes d2/c1?: through-check cases
-	"r3k2r/8/8/8/8/5n2/8/R3K2R w KQkq - 0 1",         // knight check
+	"r3k2r/8/8/4q3/8/8/8/R3K2R w KQkq - 0 1", // e-file check: no castling
+	"r3k2r/8/8/8/5b2/8/8/R3K2R w KQkq - 0 1", // bishop eyes d2/c1?: through-check cases
+	"r3k2r/8/8/8/8/5n2/8/R3K2R w KQkq - 0 1", // knight check
 	"4k3/8/8/8/8/8/8/R3K2R w KQ - 0 1",
-	"r3k2r/8/8/8/8/8/6p1/R3K2R w KQkq - 0 1",         // pawn attacks f1,h1
-	"r3k2r/1P6/8/8/8/8/1p6/R3K2R w KQkq - 0 1",       // promotion capturing a rook on its home square
-	"8/8/8/2k5/3Pp3/8/8/4K3 b - d3 0 1",              // en passant available
-	"8/8/8/8/k2Pp2Q/8/8/3K4 b - d3 0 1",              // en passant exposes the king along the rank
+	"r3k2r/8/8/8/8/8/6p1/R3K2R w KQkq - 0 1",   // pawn attacks f1,h1
+	"r3k2r/1P6/8/8/8/8/1p6/R3K2R w KQkq - 0 1", // promotion capturing a rook on its home square
+	"8/8/8/2k5/3Pp3/8/8/4K3 b - d3 0 1",        // en passant available
+	"8/8/8/8/k2Pp2Q/8/8/3K4 b - d3 0 1",        // en passant exposes the king along the rank
 	"8/8/8/8/k2Pp2R/8/8/3K4 b - d3 0 1",
 	"4k3/8/8/8/3pP3/8/8/4K2B b - e3 0 1",
 	"3k4/3p4/8/K1P4r/8/8/8/8 b - - 0 1",
-	"8/8/4k3/8/2pP4/8/B7/4K3 b - d3 0 1",             // en passant pinned diagonally
+	"8/8/4k3/8/2pP4/8/B7/4K3 b - d3 0 1", // en passant pinned diagonally
 	"4k3/8/8/8/8/8/4r3/R3K2R w KQ - 0 1",
-	"7k/5Q2/6K1/8/8/8/8/8 b - - 0 1",                 // stalemate
-	"7k/6Q1/6K1/8/8/8/8/8 b - - 0 1",                 // mate
-	"R6k/6pp/8/8/8/8/8/6K1 b - - 0 1",                // back-rank mate
-	"4k3/4r3/8/8/8/8/4R3/4K3 w - - 0 1",              // pin on the e-file
-	"4k3/8/8/8/7b/8/5N2/4K3 w - - 0 1",               // pinned knight
+	"7k/5Q2/6K1/8/8/8/8/8 b - - 0 1",    // stalemate
+	"7k/6Q1/6K1/8/8/8/8/8 b - - 0 1",    // mate
+	"R6k/6pp/8/8/8/8/8/6K1 b - - 0 1",   // back-rank mate
+	"4k3/4r3/8/8/8/8/4R3/4K3 w - - 0 1", // pin on the e-file
+	"4k3/8/8/8/7b/8/5N2/4K3 w - - 0 1",  // pinned knight
 	"4k3/8/8/1b6/8/3N4/4K3/8 w - - 0 1",
-	"8/8/8/8/8/5k2/4n1p1/4K2R w K - 0 1",             // double check-ish
+	"8/8/8/8/8/5k2/4n1p1/4K2R w K - 0 1", // double check-ish
 	"4k3/8/8/8/8/2n5/8/R3K3 w Q - 0 1",
 	"k7/7R/6R1/8/8/8/8/7K w - - 0 1",
-	"8/P7/8/8/8/8/7p/k6K w - - 0 1",                  // promotions both sides
-	"n1n5/PPPk4/8/8/8/8/4Kppp/5N1N b - - 0 1",        // promotion position (perft)
+	"8/P7/8/8/8/8/7p/k6K w - - 0 1",           // promotions both sides
+	"n1n5/PPPk4/8/8/8/8/4Kppp/5N1N b - - 0 1", // promotion position (perft)
 	"rnbqkbnr/pppp1ppp/8/8/4pP2/8/PPPPP1PP/RNBQKBNR b KQkq f3 0 2",
 	"rnbqkb1r/ppp1pppp/5n2/3pP3/8/8/PPPP1PPP/RNBQKBNR w KQkq d6 0 3",
 	"2kr3r/p1ppqpb1/bn2Qnp1/3PN3/1p2P3/2N5/PPPBBPPP/R3K2R b KQ - 3 2",
